@@ -617,6 +617,13 @@ class ExperimentPackage(StorageStructurePathResolver):
 
                 conf_dir = os.path.join(targetPath, "conf")
 
+                # VV: the workflow definition is written into conf/ below (and instance files later on): conf must be
+                # a real folder of the instance, not a link to a folder elsewhere (e.g. manifest entry "conf: x:link")
+                if os.path.realpath(conf_dir) != os.path.join(os.path.realpath(targetPath), "conf"):
+                    raise experiment.model.errors.PackageCreateError(
+                        ValueError("Manifest entry conf (%s) must be copied, not linked: the definition of the "
+                                   "workflow is stored in it" % manifest.get('conf')), targetPath, path)
+
                 if 'conf' not in manifest:
                     # VV: It's OK for the conf folder to already exist, it could have commonly used pipeline definitions
                     # in it which the flowir we're copying into the conf dir $imports
